@@ -1,6 +1,7 @@
 import Morlock.Model.Abs
 import Morlock.Spec.Chess
 import Morlock.Proofs.GenExample
+import Morlock.Proofs.ChainExample
 /-!
 # C01 — legal move generation is exactly the FIDE legal-move set
 
@@ -333,5 +334,121 @@ example : ∃ p : Position, Rep p p.square ∧
       decide +kernel
     exact (newPosition_rep hv he).1.self
   · decide +kernel
+
+/-! ## Reachable positions: the chain C01 → C02 → C05 → C18
+
+`WF` of the start position is not enough for "every reachable position is well-formed": when the side *not*
+to move is in check the generator emits the capture of its king and `Position.Move` accepts it
+(`wf_not_preserved`). The invariant that *is* preserved is
+`WFplay p turn := WF p turn ∧ p.isChecked turn.opp = false` (`Morlock/Proofs/ChainWF.lean`).
+`GenReach p t q t'` — `q` with `t'` to move is reached from `p` with `t` to move by generated moves that
+`Position.Move` accepts; `GenPlay p t ms` — the moves `ms` played in turn from `p` are generated moves;
+`playMoves p t ms` plays them (`Morlock/Proofs/ChainReach.lean`). The C05 step conditions (`MoveSound`,
+`GoodStep`, `FullStep`) for generated moves are in `C05.pseudo_moveSound` / `C05.generated_fullStep`, the C18
+ones in `C18.goodGen_of_wf`.
+-/
+section Reachable
+open Morlock.Proofs.Chain
+
+/-- What `WFplay` asks for. -/
+theorem wfplay_iff (p : Position) (turn : Color) :
+    WFplay p turn ↔ WF p turn ∧ p.isChecked turn.opp = false := Iff.rfl
+
+/-- **`pseudo_mover`.** On a well-formed position every generated move moves a piece of the side to move, and
+that piece is the one recorded in the move. -/
+theorem pseudo_mover {p : Position} {turn : Color} (hw : WF p turn) :
+    ∀ m ∈ p.pseudoLegalMoves turn, p.square m.from = some (turn, m.piece) := Chain.pseudo_mover hw
+
+/-- **No king capture.** If moreover the side not to move is not in check, no generated move captures a king. -/
+theorem pseudo_noKingCapture {p : Position} {turn : Color} (hw : WFplay p turn) :
+    ∀ m ∈ p.pseudoLegalMoves turn, m.capture ≠ .king := Chain.pseudo_noKingCapture hw
+
+/-- **`wf_preserved`.** `WFplay` is preserved by every generated move that `Position.Move` accepts: the new
+position is well-formed for the other side to move (views agree — C02 `move_refines`; at most one king per side;
+`KingHome` — C02 `kingHome_preserved`; the en-passant target, if any, is the empty square skipped by the double
+push just made, with that pawn behind it), and the side that has just moved is not in check. -/
+theorem wf_preserved {p q : Position} {turn : Color} {m : Move} (hw : WFplay p turn)
+    (hm : m ∈ p.pseudoLegalMoves turn) (hq : p.move m = some q) : WFplay q turn.opp :=
+  Chain.wf_preserved hw hm hq
+
+/-- `WF` alone is **not** preserved: a position satisfying `WF` with the side not to move in check, a generated
+move (the capture of that king) accepted by `Position.Move`, and a result violating `WF`. -/
+theorem wf_not_preserved : ∃ (p q : Position) (m : Move),
+    WF p .white ∧ m ∈ p.pseudoLegalMoves .white ∧ p.move m = some q ∧ ¬ WF q .black ∧
+      p.isChecked .black = true := Chain.wf_not_preserved
+
+/-- **`reachable_wf`.** Every position reachable from a `WFplay` position by generated moves satisfies `WFplay`,
+hence `WF`; so there the generator output is exactly the pseudo-legal moves with accurate metadata
+(`pseudoLegalMoves_iff`), every generated move has accurate metadata (`MetaOK`), is classified as the rules do
+(`ClassOK`), is moved by the side to move and does not capture a king, and the legal moves are a permutation of
+the reference legal moves (C01 `Statement`). -/
+theorem reachable_wf {p q : Position} {t t' : Color} (hw : WFplay p t) (hr : GenReach p t q t') :
+    WFplay q t' ∧ WF q t' ∧
+    (∀ m ∈ q.pseudoLegalMoves t',
+      MetaOK q m = true ∧ ClassOK (abs q t') m = true ∧
+      q.square m.from = some (t', m.piece) ∧ m.capture ≠ .king) ∧
+    ((q.legalMoves t').map absMove).Perm (Spec.legalMoves (abs q t')) := by
+  have hq := reach_wfplay hw hr
+  refine ⟨hq, hq.1, fun m hm => ?_, legal_perm hq.1⟩
+  obtain ⟨h1, h2⟩ := pseudo_metaOK hq.1 m hm
+  exact ⟨h1, h2, Chain.pseudo_mover hq.1 m hm, Chain.pseudo_noKingCapture hq m hm⟩
+
+/-- **Reachable positions refine the reference game.** Playing generated moves `ms` from a `WFplay` position and
+abstracting is abstracting and playing the abstracted moves with `Spec.apply` (C02 `play_refines` with every
+per-move hypothesis discharged); the position reached is reachable and satisfies `WFplay`. -/
+theorem reachable_refines {p q : Position} {t t' : Color} {ms : List Move} (hw : WFplay p t)
+    (hg : GenPlay p t ms) (hp : playMoves p t ms = some (q, t')) :
+    GenReach p t q t' ∧ WFplay q t' ∧
+      abs q t' = ms.foldl (fun s m => Spec.apply s (absMove m)) (abs p t) :=
+  ⟨genReach_of_play ms p t (GenReach.refl p t) hg q t' hp, play_refines_gen ms hw hg hp⟩
+
+/-- Every accepted generated move at a reachable position is a legal move of the reference in the reference
+position there (C01 `move_isSome_iff_legal` at reachable positions). -/
+theorem reachable_legal {p q r : Position} {t t' : Color} {m : Move} (hw : WFplay p t) (hr : GenReach p t q t')
+    (hm : m ∈ q.pseudoLegalMoves t') (hq : q.move m = some r) :
+    absMove m ∈ Spec.legalMoves (abs q t') := by
+  have hwq := (reach_wfplay hw hr).1
+  unfold Spec.legalMoves
+  rw [List.mem_filter]
+  refine ⟨(pseudo_iff hwq _).mp ⟨m, hm, rfl⟩, ?_⟩
+  rw [← move_isSome_iff_legal hwq hm, hq]
+  rfl
+
+/-- The initial position and "Kiwipete" (either side to move) satisfy `WFplay`. -/
+example : WFplay startPos .white ∧ WFplay kiwiPos .white ∧ WFplay kiwiPos .black :=
+  ⟨startPos_wfplay, kiwiPos_wfplay.1, kiwiPos_wfplay.2⟩
+
+/-- `reachable_wf` on the initial position: at every position reachable from it by generated moves the
+model's legal moves are the reference legal moves and every generated move has accurate metadata and captures
+no king. -/
+example : ∀ q t', GenReach startPos .white q t' →
+    WF q t' ∧ ((q.legalMoves t').map absMove).Perm (Spec.legalMoves (abs q t')) ∧
+    ∀ m ∈ q.pseudoLegalMoves t', MetaOK q m = true ∧ m.capture ≠ .king :=
+  fun _ _ hr =>
+    have h := reachable_wf startPos_wfplay hr
+    ⟨h.2.1, h.2.2.2, fun m hm => ⟨(h.2.2.1 m hm).1, (h.2.2.1 m hm).2.2.2⟩⟩
+
+/-- 1. e4 e5 2. Nf3 from the initial position. -/
+def exOpening : List Move :=
+  [{ ty := .jump, «from» := 11, to := 27, piece := .pawn }, { ty := .jump, «from» := 51, to := 35, piece := .pawn },
+   { ty := .normal, «from» := 1, to := 18, piece := .knight }]
+
+/-- `reachable_refines` on that line: the moves are generated moves (checked by evaluation), so the position
+reached satisfies `WFplay` — Black to move — and its abstraction is the reference position after the same
+moves. -/
+example : ∃ q, playMoves startPos .white exOpening = some (q, .black) ∧ WFplay q .black ∧
+    abs q .black = exOpening.foldl (fun s m => Spec.apply s (absMove m)) (abs startPos .white) := by
+  have hs : ((playMoves startPos .white exOpening).map (·.2)) = some Color.black := by decide +kernel
+  cases hp : playMoves startPos .white exOpening with
+  | none => rw [hp] at hs; cases hs
+  | some x =>
+    obtain ⟨q, t'⟩ := x
+    rw [hp] at hs
+    simp only [Option.map_some, Option.some.injEq] at hs
+    subst hs
+    have h := reachable_refines startPos_wfplay (genPlay_of_check _ _ _ (by decide +kernel)) hp
+    exact ⟨q, rfl, h.2.1, h.2.2⟩
+
+end Reachable
 
 end Morlock.Props.C01
